@@ -157,7 +157,9 @@ func (s *Schema) AddType(name string, sc jschema.Schema) (err error) {
 
 		example, err := typ.Example()
 		if err != nil {
-			return fmt.Errorf("generate example for Regex type: %w", err)
+			// The error of the Regex type itself: it carries the file, the
+			// position and the code, which a wrapper would hide.
+			return err
 		}
 
 		// JSON quoting, not Go quoting: %q produces escapes (\x00, \a, \U0001f3c6)
